@@ -509,11 +509,17 @@ def templates():
         t.append(inj("DISCONNECT", "transport", role, "post-auth",
                      lambda x, r: mk(1, ("int", 11), ("str", b"bye"), ("str", b"en")), ["int", "text", "text"], **g))
         t.append(inj("DEBUG", "transport", role, "post-auth",
-                     lambda x, r: mk(4, ("bool", True), ("str", b"dbg"), ("str", b"en")), ["bool", "str", "str"], **g))
+                     lambda x, r: mk(4, ("bool", False), ("str", b"dbg"), ("str", b"en")), ["bool", "str", "str"], **g))
         t.append(inj("IGNORE", "transport", role, "post-auth", lambda x, r: mk(2, ("str", b"noise")), ["str"], **g))
         t.append(inj("UNIMPLEMENTED", "transport", role, "post-auth", lambda x, r: mk(3, ("int", 3)), ["int"], **g))
         t.append(inj("DISCONNECT/during-kex", "transport-kex", role, "never",
                      lambda x, r: mk(1, ("int", 11), ("str", b"bye"), ("str", b"en")), ["int", "text", "text"], **hs))
+    for role in (C, S):
+        t.append(inj("EXT_INFO/post-auth", "transport", role, "post-auth",
+                     lambda x, r: mk(7, ("int", 1), ("str", b"server-sig-algs"), ("str", b"ssh-ed25519")),
+                     ["int", "text", "str"], **g))
+    t.append(inj("USERAUTH_INFO_RESPONSE/post-auth", "transport", S, "post-auth",
+                 lambda x, r: mk(61, ("int", 1), ("str", b"pw")), ["int", "text"], **g))
     t.append(rep("CHANNEL_EXTENDED_DATA", "chan-io", C, 95, ["int", "int", "str"], **io))
     t.append(inj("CHANNEL_EXTENDED_DATA/from-client", "chan-io", S, "chan-open",
                  lambda x, r: mk(95, ("int", cid(x)), ("int", 1), ("str", b"err")), ["int", "int", "str"], **io))
@@ -596,7 +602,7 @@ def execute(tpl, dev, role=None, banner=None, probe_cfg=None):
         p.close()
         s.quiesce()
 
-    ex, hung = CF.run(body, horizon=45.0, step_budget=30_000, wd=4.0)
+    ex, hung = CF.run(body, horizon=45.0, step_budget=30_000, wd=10.0)
     out["outcome"] = ex.outcome
     out["error"] = repr(ex.error) if ex.error is not None else None
     out["hung"] = hung
@@ -770,7 +776,7 @@ def main(tier):
                      "default algorithms except the kex family under test; ed25519 host key",
                      "victim timeouts shortened (auth/channel 5 s, handshake 8 s virtual); a victim API still blocked "
                      "after 45 virtual seconds is recorded as a hang, not judged (C13)",
-                     "a thread spinning for 4 CPU-seconds without a scheduling point is interrupted and reported "
+                     "a thread spinning for 10 CPU-seconds without a scheduling point is interrupted and reported "
                      "as HangDetected at its site"])
     tpls = templates()
     ncfg = probe_templates(tpls)
